@@ -15,6 +15,13 @@ threads and every schedule):
                                     loop, the bit stays, exactly one Close wins
   * `C13_close_never_waits_for_handshake`  goroutines parked in a transport read (handshake, Read)
                                     hold no mutex Close needs before it closes the transport
+  * `C13_deadline_setters_never_wait`  SetDeadline / SetReadDeadline / SetWriteDeadline need no mutex
+                                    that any method holds across a transport read OR write: they
+                                    run to their end whatever the other goroutines are parked on
+                                    (a Write stuck on a peer that stopped reading holds `out`)
+  * `C13_write_section`, `C13_code` the section of Write after the handshake, walked WITH its loops,
+                                    is `out.Lock(); loop { transport write }; out.Unlock()`: the
+                                    mutex is taken outside the record loop, once per call
   * `C13_checker_sound_complete`    the executable `isWholeInterleaving` used by the oracle on the
                                     REAL peer stream decides `WholeInterleaving`
   * `C13_facts`, `C13_code`         the facts of THIS tree the instantiations rely on
@@ -298,6 +305,75 @@ example :
     let s0 : State (LockM Unit) := ⟨[parked, { prog := [.skip, .acq lkHandshake, .rel lkHandshake, .skip] }], {}⟩
     (run (LockM Unit) s0 (List.replicate 12 1)).ths.map (fun t => t.prog.length) = [3, 3] := by decide
 
+/-! ### the deadline setters do not wait for blocked I/O -/
+
+/-- what the extracted programs say (both stacks): the three deadline setters exist and acquire
+no mutex that ANY method holds across a transport read or a transport write.  (Today they
+acquire none at all.)  Not vacuous: handshakeMutex, `in` and `out` are all held across transport
+I/O by some method — `out` by Write, across the transport write of every record. -/
+theorem C13_deadline_setters_extracted :
+    (∀ progs ∈ [Facts.tlcp.lockProgs, Facts.dtlcp.lockProgs],
+      ∀ name ∈ ["SetDeadline", "SetReadDeadline", "SetWriteDeadline"],
+        (∃ p ∈ progs, p.1 = name) ∧
+        ∀ l ∈ acquires (ofEvents Unit (lookupProg progs name)), ∀ p ∈ progs, l ∉ heldAtIO [] p.2) ∧
+    (∀ l ∈ [lkHandshake, lkIn, lkOut], (∃ p ∈ Facts.tlcp.lockProgs, l ∈ heldAtIO [] p.2) ∧
+      (∃ p ∈ Facts.dtlcp.lockProgs, l ∈ heldAtIO [] p.2)) ∧
+    lkOut ∈ heldAtIO [] (lookupProg Facts.tlcp.lockProgs "Write") ∧
+    lkOut ∈ heldAtIO [] (lookupProg Facts.dtlcp.lockProgs "Write") := by
+  decide
+
+/-- "no deadlock between a blocked call and a deadline setter": however many other goroutines
+are PARKED (never scheduled again) in transport I/O — a Write whose peer stopped reading, under
+`out`; a Read under `in`; a handshake under handshakeMutex + `in` — holding whatever mutexes the
+extracted programs hold there, a goroutine calling SetDeadline, SetReadDeadline or
+SetWriteDeadline runs to the END of the call on its own.  (That the transport deadline then makes
+the parked call return is the transport's contract and a runtime observation: scenario `stall`.) -/
+theorem C13_deadline_setters_never_wait (progs : List (String × List (Nat × Nat)))
+    (hprogs : progs = Facts.tlcp.lockProgs ∨ progs = Facts.dtlcp.lockProgs)
+    (name : String) (hname : name ∈ ["SetDeadline", "SetReadDeadline", "SetWriteDeadline"])
+    (a b : List (Thread Unit))
+    (hparked : ∀ u ∈ a ++ b, ∀ l ∈ u.held, ∃ p ∈ progs, l ∈ heldAtIO [] p.2)
+    (sh : Shared Unit) :
+    ∃ th' sh', Reach (LockM Unit)
+        ⟨a ++ ({ prog := ofEvents Unit (lookupProg progs name) } : Thread Unit) :: b, sh⟩
+        ⟨a ++ th' :: b, sh'⟩ ∧ th'.prog = [] := by
+  have hmem : progs ∈ [Facts.tlcp.lockProgs, Facts.dtlcp.lockProgs] := by
+    rcases hprogs with rfl | rfl <;> simp
+  obtain ⟨⟨q, hq, hqn⟩, hdisj⟩ := C13_deadline_setters_extracted.1 progs hmem name hname
+  have hord : ordered id [] (ofEvents Unit (lookupProg progs name)) = true := by
+    have h := C13_lock_order_extracted.2
+    have hl : lookupProg progs name ∈ progs.map (·.2) := by
+      unfold lookupProg
+      cases hf : progs.find? (fun p => p.1 == name) with
+      | none =>
+        have := List.find?_eq_none.mp hf q hq
+        simp [hqn] at this
+      | some r => exact List.mem_map.mpr ⟨r, List.mem_of_find?_eq_some hf, rfl⟩
+    obtain ⟨r, hr, hre⟩ := List.mem_map.mp hl
+    rw [← hre]
+    rcases hprogs with rfl | rfl
+    · exact (h r (by simp [hr])).1
+    · exact (h r (by simp [hr])).1
+  apply solo_run id a b (ofEvents Unit (lookupProg progs name)) [] _ sh
+  · simp
+  · exact hord
+  · intro u hu l hl hacq
+    obtain ⟨p, hp, hheld⟩ := hparked u hu l hl
+    exact hdisj l hacq p hp hheld
+
+/-- non-vacuity: a Write parked in its transport write (holding `out`) does not stop the
+extracted SetWriteDeadline in the model … -/
+example :
+    let parked : Thread Unit := { held := [lkOut], prog := [.emit (), .rel lkOut] }
+    let s0 : State (LockM Unit) := ⟨[parked, callerThread [[(12, 0)], lookupProg Facts.tlcp.lockProgs "SetWriteDeadline"]], {}⟩
+    (run (LockM Unit) s0 (List.replicate 6 1)).ths.map (fun t => t.prog.length) = [2, 0] := by decide
+/-- … whereas a setter that goes through the write half (`out.Lock(); …; out.Unlock()`) stays
+blocked behind it for ever: the parked Write is waiting for exactly that call -/
+example :
+    let parked : Thread Unit := { held := [lkOut], prog := [.emit (), .rel lkOut] }
+    let s0 : State (LockM Unit) := ⟨[parked, { prog := ofEvents Unit [(0, 2), (1, 2)] }], {}⟩
+    (run (LockM Unit) s0 (List.replicate 6 1)).ths.map (fun t => t.prog.length) = [2, 2] := by decide
+
 /-! ### facts of this tree -/
 
 /-- The facts the instantiations above rely on, re-extracted from the Go AST on every run:
@@ -348,14 +424,49 @@ theorem C13_facts :
     Facts.missing = [] := by
   decide
 
-/-- the model's writer IS the extracted Write section, expanded over the records of a payload
-(both stacks, and WriteTo) -/
+/-- The application-data section of `Write` (both stacks) and `WriteTo` — the method body after
+its handshake call, walked with loop markers — is exactly
+`out.Lock(); LOOP { transport write }; out.Unlock()`: `out` is acquired OUTSIDE the record loop,
+once per call, and nothing else is locked or unlocked inside it.  And the cut is the right one:
+without its markers the section is the tail of the plain program of the method (after the last
+release of handshakeMutex), so nothing of the method was left out between the two. -/
+theorem C13_write_section :
+    sectionEvents (lookupProg Facts.tlcp.lockWriteSections "Write") = [(0, 2), (10, 0), (2, 0), (11, 0), (1, 2)] ∧
+    sectionEvents (lookupProg Facts.dtlcp.lockWriteSections "Write") = [(0, 2), (10, 0), (2, 0), (11, 0), (1, 2)] ∧
+    sectionEvents (lookupProg Facts.dtlcp.lockWriteSections "WriteTo") = [(0, 2), (10, 0), (2, 0), (11, 0), (1, 2)] ∧
+    tailAfterHandshake (stripLoops (lookupProg Facts.tlcp.lockWriteSections "Write")) =
+      tailAfterHandshake (lookupProg Facts.tlcp.lockProgs "Write") ∧
+    tailAfterHandshake (stripLoops (lookupProg Facts.dtlcp.lockWriteSections "Write")) =
+      tailAfterHandshake (lookupProg Facts.dtlcp.lockProgs "Write") ∧
+    tailAfterHandshake (stripLoops (lookupProg Facts.dtlcp.lockWriteSections "WriteTo")) =
+      tailAfterHandshake (lookupProg Facts.dtlcp.lockProgs "WriteTo") ∧
+    Facts.tlcp.lockWriteSections.map (·.1) = ["Write"] ∧
+    Facts.dtlcp.lockWriteSections.map (·.1) = ["Write", "WriteTo"] := by
+  decide
+
+theorem flatMap_emit {α : Type} (payload : List α) :
+    payload.flatMap (fun x => [Act.emit x]) = payload.map Act.emit := by
+  induction payload with
+  | nil => rfl
+  | cons x r ih => simp [List.flatMap_cons, ih]
+
+/-- the model's writer IS the extracted Write section, its record loop run once per record of the
+payload (both stacks, and WriteTo), for every payload -/
 theorem C13_code {α : Type} (payload : List α) :
-    expandWrite payload (tailAfterHandshake (lookupProg Facts.tlcp.lockProgs "Write")) = writerProg payload ∧
-    expandWrite payload (tailAfterHandshake (lookupProg Facts.dtlcp.lockProgs "Write")) = writerProg payload ∧
-    expandWrite payload (tailAfterHandshake (lookupProg Facts.dtlcp.lockProgs "WriteTo")) = writerProg payload := by
-  have h := C13_facts
-  rw [h.2.2.2.1, h.2.2.2.2.1, h.2.2.2.2.2.1]
-  simp [expandWrite, writerProg, lkOut]
+    expandWrite payload (sectionEvents (lookupProg Facts.tlcp.lockWriteSections "Write")) = writerProg payload ∧
+    expandWrite payload (sectionEvents (lookupProg Facts.dtlcp.lockWriteSections "Write")) = writerProg payload ∧
+    expandWrite payload (sectionEvents (lookupProg Facts.dtlcp.lockWriteSections "WriteTo")) = writerProg payload := by
+  have h := C13_write_section
+  rw [h.1, h.2.1, h.2.2.1]
+  simp [expandWrite, expandWriteF, splitLoop, iteration, writerProg, lkOut, flatMap_emit]
+
+/-- what the expansion does with a section that takes `out` INSIDE a loop over slices of the
+caller's buffer (`for … { out.Lock(); loop { transport write }; out.Unlock() }`): one critical
+section per iteration — the program of the torn-write example above, not `writerProg` -/
+example :
+    expandWrite [1, 2] [(10, 0), (0, 2), (10, 0), (2, 0), (11, 0), (1, 2), (11, 0)] =
+      ([.acq 2, .emit 1, .rel 2, .acq 2, .emit 2, .rel 2] : List (Act Nat)) ∧
+    expandWrite [1, 2] [(10, 0), (0, 2), (10, 0), (2, 0), (11, 0), (1, 2), (11, 0)] ≠ writerProg [1, 2] := by
+  decide
 
 end Gotlcp.Props.C13
